@@ -139,6 +139,16 @@ def run(chk):
     for z in majors:
         for t in dst:
             zcases.append((z, t))
+    # offsets that are not whole minutes: local mean time before the standard zones (these entries of the database do
+    # not change between releases) and Liberia until 1972 (-0:44:30): every accessor, hours/minutes/seconds included
+    odd = set()
+    for z in ["America/New_York", "America/Los_Angeles", "America/Chicago", "America/Sao_Paulo", "Europe/London", "Europe/Berlin",
+              "Europe/Paris", "Europe/Moscow", "Asia/Tokyo", "Asia/Shanghai", "Australia/Sydney", "Pacific/Auckland", "Africa/Cairo",
+              "Africa/Johannesburg", "Pacific/Honolulu"]:
+        for t in (at(1850, 6, 1, 12), at(1850, 12, 31, 23, 59, 59), at(1801, 1, 1, 0, 0, 1)):
+            zcases.append((z, t)); odd.add((z, t))
+    for t in (at(1970, 1, 1), at(1971, 12, 31, 23, 59, 59), at(1960, 2, 29, 0, 44, 29)):
+        zcases.append(("Africa/Monrovia", t)); odd.add(("Africa/Monrovia", t))
     nzone = 0
     for z, t in zcases:
         try:
@@ -146,7 +156,7 @@ def run(chk):
         except Exception:
             continue
         nzone += 1
-        for a in (rng.sample(ACCS, 3) if quick else ACCS):
+        for a in (rng.sample(ACCS, 3) if quick and (z, t) not in odd else ACCS):
             add("t.%s(z)" % a, [("t", vtime(t)), ("z", vs(z))], "OK " + vi(f[a]), "%s(%s) at %d" % (a, z, t))
     for z in ["Nowhere/City", "", "utc ", "UTC+1", "+01:00", "Mars/Olympus", "Europe", "America/", "EST5EDTX", "12345"]:
         add("t.getHours(z)", [("t", vtime(T1)), ("z", vs(z))], "ERRANY", "unknown zone %r" % z)
@@ -187,7 +197,10 @@ def run(chk):
     for base, als in ALIASES.items():
         for al in als:
             uadd("uomConvert(2.0, a, b) == uomConvert(2.0, b, b)", [("a", vs(al)), ("b", vs(base))], "OK b1", "alias %r of %s" % (al, base))
-    for a, b in [("kg", "l"), ("l", "mph"), ("c", "kg"), ("mph", "k"), ("kg", "furlong"), ("parsec", "kg"), ("", "kg"), ("kg", "")]:
+    for a, b in [("kg", "l"), ("l", "mph"), ("c", "kg"), ("mph", "k"), ("kg", "furlong"), ("parsec", "kg"), ("", "kg"), ("kg", ""),
+                 # both unknown: the same spelling twice, two different ones, empty
+                 ("furlong", "lightyear"), ("parsec", "parsec"), ("", ""), ("x", "x"), ("kgg", "kgg"), ("furlong", "parsec"),
+                 ("zz", "zz"), ("k g", "k g")]:
         uadd("uomConvert(1.0, a, b)", [("a", vs(a)), ("b", vs(b))], "ERRANY", "incompatible or unknown %r -> %r" % (a, b))
     uimpl = run_impl(ucases, isolate=True)
     for lab, c, r, w in zip(ulabels, ucases, uimpl, uwant):
